@@ -36,6 +36,11 @@ Theorem c03_fresh_ids : forall sched progs,
   let s := final sched progs in fst (latest s) <= next_id s + 1 /\ (writers s = [] -> fst (latest s) <= next_id s).
 Proof. exact fresh_ids. Qed.
 
+(* with begin_read's retry loop (fix of finding F1) a reader is pinned at exactly the transaction whose root it reads *)
+Theorem c03_reader_id_eq_root : forall sched progs r rs v p,
+  aget r (readers (final sched progs)) = Some rs -> r_root rs = Some (v, p) -> r_reg rs = v.
+Proof. exact reader_id_eq_root. Qed.
+
 (* a reader's registered id (its pin) is never newer than the transaction id of the root it then reads *)
 Theorem c03_reader_id_le_root : forall sched progs r rs v p,
   aget r (readers (final sched progs)) = Some rs -> r_root rs = Some (v, p) -> r_reg rs <= v.
@@ -73,14 +78,18 @@ Example c03_nonvacuous_two_writers :
   evs = [(0, EAt "T.start_write"%string); (0, EAt "M.alloc_loaded"%string); (1, EAt "T.start_write"%string); (1, EBlocked)]%nat.
 Proof. vm_compute. repeat split. eexists; reflexivity. Qed.
 
-(* a reader registers, a whole durable commit happens, then the reader reads its root:
-   registered id 1 < root id 2; two publications; the reader sees payload 2 *)
+(* a reader registers, a whole durable commit happens, then the reader reads id and root: they are not the ones
+   it registered for, so it drops the registration and registers again (events of thread 0), ending pinned at
+   the root it reads; two publications; it sees payload 2 *)
 Example c03_nonvacuous_reader_between :
   let progs := [[BeginRead 0; Observe 0]; [BeginWrite; Put; CommitD false]] in
-  let s := final ([0; 0] ++ repeat 1 40 ++ [0; 0])%nat progs in
-  (exists rs, aget 0 (readers s) = Some rs /\ r_reg rs = 1 /\ r_root rs = Some (2, 2) /\ r_pubs rs = 2%nat) /\
-  map fst (hist s) = [2; 1] /\ result 0%nat (Observe 0) s = RTag 2.
-Proof. vm_compute. split; [eexists; repeat split|split; reflexivity]. Qed.
+  let '(_, s, evs) := prun ([0; 0] ++ repeat 1 40 ++ [0; 0; 0; 0; 0])%nat (pstart progs) init in
+  (exists rs, aget 0 (readers s) = Some rs /\ r_reg rs = 2 /\ r_root rs = Some (2, 2) /\ r_pubs rs = 2%nat) /\
+  map fst (hist s) = [2; 1] /\ result 0%nat (Observe 0) s = RTag 2 /\
+  map snd (filter (fun e => Nat.eqb (fst e) 0) evs) =
+    [EAt "T.register_read"%string; EAt "M.get_data_root"%string; EAt "T.dealloc_read"%string;
+     EAt "T.register_read"%string; EAt "M.get_data_root"%string; EDone ROk; EDone (RTag 2)].
+Proof. vm_compute. split; [eexists; repeat split|repeat split; reflexivity]. Qed.
 
 (* an aborted transaction's tag is dead afterwards (hypothesis of c03_aborted_never_visible is satisfiable) *)
 Example c03_nonvacuous_dead_tag :
@@ -92,16 +101,17 @@ Proof.
   - intros k w [].
 Qed.
 
-(* Finding F1 in the model: the step model ALLOWS the schedule in which a reader registers at the durable
-   transaction 4, reads the root of the later non-durable commit 5, and the third non-durable commit reclaims
-   the record with key 6 (pages of version 5 freed by transaction 6), then 7, while the reader lives.  So no analogue of
-   "a live reader's pages are never released" holds for the non-durable reclaim path -- in the model exactly as
-   in redb (replays/C03-c03-F1-nd-reclaim-late-root-*.json). *)
-Example c03_model_exhibits_nd_reclaim_under_late_root :
+(* Finding F1 (fixed in redb by commit 2256ac3, replays/C03-c03-F1-nd-reclaim-late-root-*.json): the schedule in
+   which begin_read registers at the durable transaction 4 and a non-durable commit 5 is published before it reads
+   its root.  With the retry loop the reader ends registered at 5, the root it reads, so transaction 5 -- a pending
+   non-durable commit with a live read -- bounds the non-durable reclaim horizon: nothing is reclaimed
+   (nd_released = 0) although three more non-durable commits follow.  Before the fix the model (like redb) reached
+   r_reg = 4, root 5, nd_released = 7 on the same schedule. *)
+Example c03_model_late_root_window_closed :
   let w := fun e => [BeginWrite; Put; e] in
   let progs := [ w (CommitD false) ++ [BeginWrite; CommitD false] ++ w CommitND ++ w CommitND ++ w CommitND ++ w CommitND;
                  [BeginRead 0; Observe 0] ] in
-  let s := final (repeat 0 46 ++ [1; 1] ++ repeat 0 12 ++ [1; 1] ++ repeat 0 200 ++ [1])%nat progs in
-  exists rs, aget 0 (readers s) = Some rs /\ r_reg rs = 4 /\ r_root rs = Some (5, 3) /\
-             durable_id s = 4 /\ nd_released s = 7.
+  let s := final (repeat 0 46 ++ [1; 1] ++ repeat 0 12 ++ [1; 1; 1; 1; 1] ++ repeat 0 200 ++ [1])%nat progs in
+  exists rs, aget 0 (readers s) = Some rs /\ r_reg rs = 5 /\ r_root rs = Some (5, 3) /\
+             durable_id s = 4 /\ nd_released s = 0 /\ fst (latest s) = 8.
 Proof. vm_compute. eexists; repeat split. Qed.
